@@ -503,15 +503,13 @@ i_LDURSW = i_LDR
 def i_LSLV(i, fmap):
     fmap[pc] = fmap[pc] + i.length
     dst, op1, op2 = i.operands
-    op1.sf = False
-    fmap[dst] = fmap(op1 << op2)
+    fmap[dst] = fmap(op1.unsigned() << op2)
 
 
 def i_LSRV(i, fmap):
     fmap[pc] = fmap[pc] + i.length
     dst, op1, op2 = i.operands
-    op1.sf = False
-    fmap[dst] = fmap(op1 >> op2)
+    fmap[dst] = fmap(op1.unsigned() >> op2)
 
 
 def i_MADD(i, fmap):
@@ -595,8 +593,8 @@ def i_RORV(i, fmap):
 
 def i_SDIV(i, fmap):
     fmap[pc] = fmap[pc] + i.length
-    op1, op2 = fmap(i.n), fmap(i.m)
-    op1.sf = op2.sf = True
+    # signed copies: fmap(r) may be the register object shared by the whole module
+    op1, op2 = fmap(i.n).signed(), fmap(i.m).signed()
     if op2._is_cst and op2.value == 0:
         # no trap in AArch64: a division by zero writes zero
         fmap[i.d] = cst(0, op2.size)
@@ -606,8 +604,7 @@ def i_SDIV(i, fmap):
 
 def i_UDIV(i, fmap):
     fmap[pc] = fmap[pc] + i.length
-    op1, op2 = fmap(i.n), fmap(i.m)
-    op1.sf = op2.sf = False
+    op1, op2 = fmap(i.n).unsigned(), fmap(i.m).unsigned()
     if op2._is_cst and op2.value == 0:
         # no trap in AArch64: a division by zero writes zero
         fmap[i.d] = cst(0, op2.size)
